@@ -622,7 +622,7 @@ class EffectsEngine(Engine):
             st["pattern"], st["goal"], st["args"] = pat
         if k == "generate":
             st["gkind"] = rng.choice(["variable", "function", "class", "module", "package"])
-            if rng.random() < 0.3:
+            if rng.random() < 0.3 and inproj:
                 st["goal"] = rng.choice(inproj)
         if k in SUPPORTS_RESOURCES and rng.random() < swarm["p_resources"]:
             pool = pyfiles + ["ext:extmod.py"]
